@@ -21,6 +21,9 @@ def isCommand (w : String) : Bool := Generated.Scc.commands.contains w
 def special (w : String) : Option String := lookup Generated.Scc.specialChars w
 def extended (w : String) : Option String := lookup Generated.Scc.extendedChars w
 def character (b : String) : Option String := lookup Generated.Scc.characters b
+/-- the two bytes of a four-digit word: `word[:2]`, `word[2:]` -/
+def hiByte (w : String) : String := String.ofList (w.toList.take 2)
+def loByte (w : String) : String := String.ofList (w.toList.drop 2)
 def isCueStarting (w : String) : Bool := Generated.Scc.cueStarting.contains w
 def isMidRow (w : String) : Bool := Generated.Scc.midRowCodes.contains w
 def isBackground (w : String) : Bool := Generated.Scc.backgroundCodes.contains w
@@ -465,7 +468,7 @@ def word (r : Reader) (w : String) (nxt : Option String) : Reader :=
           let (c, t) := addChars c r.tr ch.toList
           { (r.setBuf c) with tr := t }
         | none =>
-          match character (w.take 2).toString, character (w.drop 2).toString with
+          match character (hiByte w), character (loByte w) with
           | some a, some b => let (c, t) := addChars r.buf r.tr (a.toList ++ b.toList); { (r.setBuf c) with tr := t }
           | _, _ => r
   { r with frames := r.frames + 1 }
